@@ -379,18 +379,29 @@ theorem parseAuxArray_spec (P : Parsers) (t0 t1 : UInt8) (txt : Bytes) :
   unfold parseAuxArray
   split
   · exact Or.inl rfl
-  · rename_i h2
-    rw [bind_ok _ _ _ (index_of_lt _ txt 1 (by omega))]
-    split
-    · exact Or.inl rfl
-    · rw [bind_ok _ _ _ (sliceFrom_of_le _ txt 2 (by omega)), bind_ok _ _ _ (index_of_lt _ txt 0 (by omega))]
-      cases hp : arrayParser P (txt[0]'(by omega)) with
+  · rename_i h0
+    have h0' : 0 < txt.length := Nat.pos_of_ne_zero h0
+    -- the tail after the two `if 1 < txt.length` blocks
+    have tail : ∀ nf : List Bytes, nf.length ≤ txt.length →
+        ((do
+          let sub ← index "sam.ParseAux:txt[0]" txt 0
+          let (size, p) ← ofOption (arrayParser P sub)
+          let vs ← ofOption (parseAll p nf)
+          pure (newAuxArray t0 t1 sub size vs) : Outcome Bytes) = err ∨
+        ∃ a, (do
+          let sub ← index "sam.ParseAux:txt[0]" txt 0
+          let (size, p) ← ofOption (arrayParser P sub)
+          let vs ← ofOption (parseAll p nf)
+          pure (newAuxArray t0 t1 sub size vs) : Outcome Bytes) = ok a ∧ (txt.length < 2147483647 → wfAux a = true)) := by
+      intro nf hnf
+      rw [bind_ok _ _ _ (index_of_lt _ txt 0 h0')]
+      cases hp : arrayParser P (txt[0]'h0') with
       | none => exact Or.inl rfl
       | some sp =>
         obtain ⟨size, p⟩ := sp
         obtain ⟨hs, h124⟩ := arrayParser_size P _ size p hp
         simp only [ofOption, bind_ok _ _ _ rfl]
-        cases hv : parseAll p (splitOn 44 (txt.drop 2)) with
+        cases hv : parseAll p nf with
         | none => exact Or.inl rfl
         | some vs =>
           right
@@ -398,10 +409,24 @@ theorem parseAuxArray_spec (P : Parsers) (t0 t1 : UInt8) (txt : Bytes) :
           intro hlen
           apply newAuxArray_wf _ _ _ _ _ hs h124
           rw [parseAll_length p _ vs hv]
-          have := splitOn_length 44 (txt.drop 2)
-          simp only [List.length_drop] at this
           omega
-
+    by_cases h1 : 1 < txt.length
+    · simp only [if_pos h1]
+      rw [bind_ok _ _ _ (index_of_lt _ txt 1 h1)]
+      simp only [pure_eq_ok, bind_ok _ _ _ rfl]
+      split
+      · exact Or.inl rfl
+      · rw [bind_ok _ _ _ (sliceFrom_of_le _ txt 2 (by omega))]
+        apply tail
+        have := splitOn_length 44 (txt.drop 2)
+        simp only [List.length_drop] at this
+        omega
+    · simp only [if_neg h1]
+      simp only [pure_eq_ok, bind_ok _ _ _ rfl]
+      split
+      · exact Or.inl rfl
+      · apply tail
+        simp
 
 /-- `sam.ParseAux`: an error, or a well-formed aux field; never a panic -/
 theorem parseAux_spec (P : Parsers) (text : Bytes) :
